@@ -5,6 +5,7 @@ crash point - statement level in process (quick+thorough) and every file-mutatin
 server process out of process under strace fault injection (thorough). Each survivor is opened by
 a fresh KmipEngine and compared with the reference states of an uncrashed run.
 """
+import itertools
 import json
 import os
 import shutil
@@ -38,6 +39,8 @@ def workload(name='main'):
     """List of (label, version, item builder(ctx)). ctx maps labels to identifiers."""
     if name == 'attributes':
         return workload_attributes()
+    if name.startswith('seq:'):
+        return workload_seq(name[4:])
     if name == 'core':
         keep = ('create', 'create_key_pair', 'register_secret', 'activate', 'modify_1x', 'delete_1x',
                 'revoke', 'destroy_deactivated')
@@ -80,6 +83,31 @@ def workload(name='main'):
         ('destroy_opaque', (1, 2), lambda x: W.p_destroy(x['register_opaque'])),
         ('destroy_preactive', (1, 2), lambda x: W.p_destroy(x['register_public'])),
     ]
+    return wl
+
+
+SEQ_ALPHABET = 'arcdmxsnk'
+
+
+def workload_seq(codes):
+    """Generated family: one Create (two names, a group) followed by the operations `codes` spell,
+    all aimed at that one object (k creates a neighbour). Operations may fail - a failed one must
+    leave the file as it was; an acknowledged one must have changed it."""
+    wl = [('create', (1, 4), lambda x: W.p_create(W.sym_attrs(masks=MASKS, names=['k', 'k2'], groups=['g'])))]
+    RC = E.RevocationReasonCode
+    for i, ch in enumerate(codes):
+        b = {
+            'a': ((1, 4), lambda x, i=i: W.p_activate(x['create'])),
+            'r': ((1, 4), lambda x, i=i: W.p_revoke(x['create'])),
+            'c': ((1, 4), lambda x, i=i: W.p_revoke(x['create'], RC.KEY_COMPROMISE)),
+            'd': ((1, 4), lambda x, i=i: W.p_destroy(x['create'])),
+            'm': ((1, 4), lambda x, i=i: W.p_modify_attribute_1x(x['create'], AT.NAME, 'v%d' % i, 0)),
+            'x': ((1, 4), lambda x, i=i: W.p_delete_attribute_1x(x['create'], 'Name', 0)),
+            's': ((2, 0), lambda x, i=i: W.p_set_attribute(x['create'], AT.SENSITIVE, True)),
+            'n': ((2, 0), lambda x, i=i: W.p_delete_attribute_20(x['create'], AT.OBJECT_GROUP)),
+            'k': ((1, 4), lambda x, i=i: W.p_create(W.sym_attrs(masks=MASKS, names=['n%d' % i]))),
+        }[ch]
+        wl.append(('op%d_%s' % (i, ch), b[0], b[1]))
     return wl
 
 
@@ -230,13 +258,16 @@ def run_workload(w, on_before=None, on_ack=None, name='main', on_item=None):
             on_item(i, label, version, items, hdr)      # reference runs: item by item
             items = build(ctx)
         r = w.do(version, items, **hdr)
-        ok = all(it.ok() for it in r.items) or label.startswith(('failing', 'batch_mod_fail'))
+        LAST_CTX['_ok'] = all(it.ok() for it in r.items)
+        ok = LAST_CTX['_ok'] or label.startswith(('failing', 'batch_mod_fail', 'op'))
         uid = r.uid() if r.items and r.items[0].payload else None
         if uid is None and r.items and r.items[0].payload:
             uid = r.pfind(W.TAG.PRIVATE_KEY_UNIQUE_IDENTIFIER)
         ctx[label] = uid
+        _okv = LAST_CTX.get('_ok')
         LAST_CTX.clear()
         LAST_CTX.update(ctx)
+        LAST_CTX['_ok'] = _okv
         out.append((label, ok, r.brief()))
         if on_ack:
             on_ack(i, label)
@@ -276,7 +307,7 @@ def view(dump):
 def reference_states(name='main'):
     """S_0 .. S_n of an uncrashed run (+ per-op labels/results)."""
     global RSA_GENERATED
-    RSA_GENERATED = RSA_IDS[name]
+    RSA_GENERATED = RSA_IDS.get(name, ())
     w = W.World()
     try:
         states = States([view(w.dump())])
@@ -308,6 +339,14 @@ def reference_states(name='main'):
                     held = False
                 if not held:
                     states.unwritten.append(label)
+            if name.startswith('seq:') and label.startswith('op'):
+                # generic form of the same oracle: an operation acknowledged as successful changed the
+                # file (a, d, m, x, k change something whenever they succeed; the idempotent ones - r, c, s, n -
+                # are only judged the first time they appear)
+                ch, first = label[-1], name[4:].index(label[-1]) == int(label[2:-2])
+                states.acks = getattr(states, 'acks', []) + [bool(LAST_CTX.get('_ok'))]
+                if LAST_CTX.get('_ok') and states[-1] == states[-2] and (ch in 'admxk' or first):
+                    states.unwritten.append(label)
         res = run_workload(w, on_ack=on_ack, name=name, on_item=on_item)
         return states, res
     finally:
@@ -332,7 +371,7 @@ def partial_objects(dump):
 def check_survivor(dbfile, acked, states, labels):
     """Returns list of (key, what)."""
     global RSA_GENERATED
-    RSA_GENERATED = RSA_IDS[getattr(states, 'name', 'main')]
+    RSA_GENERATED = RSA_IDS.get(getattr(states, 'name', 'main'), ())
     bad = []
     tmp = tempfile.mkdtemp(prefix='verif-c09s-', dir=W.SCRATCH_BASE)
     try:
@@ -395,7 +434,7 @@ def _vdiff(a, b):
 
 
 # ---- statement level ---------------------------------------------------------------------
-def statement_level(part, states, labels):
+def statement_level(part, states, labels, only_last=False):
     tmp = tempfile.mkdtemp(prefix='verif-c09-', dir=W.SCRATCH_BASE)
     w = W.World()
     try:
@@ -403,7 +442,8 @@ def statement_level(part, states, labels):
         w.engine._data_store.dispose()
 
         def before(i, label):
-            rec.current_op = label
+            # only_last: the crash points of a generated sequence's prefix belong to the shorter sequence
+            rec.current_op = label if (not only_last or i == len(labels) - 1) else None
             rec.explicit('request-received')
 
         def ack(i, label):
@@ -438,6 +478,51 @@ def _stmt_worker(task):
                      'during': pts[len(pts) // 2]['op'], 'acked': pts[len(pts) // 2]['acked']})
     out = part.as_dict()
     out['kinds'] = sorted(part.counters.pop('_kinds', set()))
+    return out
+
+
+def sequences(depth):
+    out = []
+    for n in range(1, depth + 1):
+        out += [''.join(t) for t in itertools.product(SEQ_ALPHABET, repeat=n)]
+    return out
+
+
+def _seq_worker(codes_list):
+    """Every crash point of the LAST operation of each generated sequence."""
+    part = Part()
+    kinds = set()
+    for codes in codes_list:
+        name = 'seq:' + codes
+        states, res = reference_states(name)
+        labels = [r[0] for r in res]
+        part.count('sequences')
+        part.count('sequence_ops_acknowledged', sum(getattr(states, 'acks', [])))
+        part.count('sequence_ops_refused', len(getattr(states, 'acks', [])) - sum(getattr(states, 'acks', [])))
+        part.counters.setdefault('_states', set()).add(states[-1])
+        for label in states.unwritten:
+            part.violation("acknowledged-not-written|%s|wl=%s" % (label[-1], name),
+                           "sequence create,%s: '%s' was acknowledged as successful but, with no crash at "
+                           "all, the database file is unchanged" % (','.join(codes), label),
+                           {'level': 'postcondition', 'workload': name, 'op': label})
+        tmp, pts = statement_level(None, states, labels, only_last=True)
+        try:
+            for p in pts:
+                bad = check_survivor(p['file'], p['acked'], states, labels)
+                part.count('crash_points')
+                part.count('sequence_points')
+                kinds.add((p['event'], p['stmt'].split(' ')[0] if p['stmt'] else ''))
+                for key, what in bad:
+                    part.violation("%s|%s|wl=%s" % (key, p['op'][-1], name),
+                                   "sequence create,%s: crash at point %d (%s %s) during '%s': %s" % (
+                                       ','.join(codes), p['k'], p['event'], p['stmt'], p['op'], what),
+                                   {'level': 'statement', 'point': p['k'], 'event': p['event'],
+                                    'stmt': p['stmt'], 'op': p['op'], 'workload': name, 'only_last': True})
+        finally:
+            shutil.rmtree(tmp, ignore_errors=True)
+    out = part.as_dict()
+    out['kinds'] = sorted(kinds)
+    out['final_states'] = sorted(part.counters.pop('_states', set()))
     return out
 
 
@@ -570,6 +655,18 @@ def run(tier, seed):
     # 'core' workload; thorough: both levels for all three
     for name in WORKLOADS + ['core']:
         _one_workload(rep, tier, name, kinds, tot)
+    # generated family: every sequence of <= 2 (quick) / 3 (thorough) operations on one object
+    seqs = sequences(3 if tier == 'thorough' else 2)
+    finals = set()
+    for part in pmap(_seq_worker, [seqs[i::32] for i in range(32)]):
+        kinds.update(tuple(k) for k in part.pop('kinds', []))
+        finals.update(part.pop('final_states', []))
+        rep.merge(part)
+    tot['stmt_points'] += rep.counters.get('sequence_points', 0)
+    tot['distinct_states'] += len(finals)
+    if rep.counters.get('sequence_ops_acknowledged', 0) < len(seqs) // 2 or len(finals) < 12:
+        rep.harness_error("vacuous sequence family: %d sequences, %d acknowledged operations, %d final states" % (
+            len(seqs), rep.counters.get('sequence_ops_acknowledged', 0), len(finals)))
     total = rep.counters.get('crash_points', 0)
     stmt_points, sys_points, distinct_states = tot['stmt_points'], tot['sys_points'], tot['distinct_states']
     counts = tot['counts']
@@ -586,7 +683,11 @@ def run(tier, seed):
              "attribute-operation form, multi-commit batches, wrapped/derived/pair objects), 'core' (8). "
              "Quick: statement level for all three, syscall level (kill at every pwrite64/fsync/"
              "fdatasync/ftruncate/unlink of the server process) for 'core'; thorough: both levels for "
-             "all three",
+             "all three. Generated family: Create followed by every sequence of <= 2 (quick) / 3 (thorough) "
+             "operations from {Activate, Revoke, Revoke(compromise), Destroy, ModifyAttribute, "
+             "DeleteAttribute, SetAttribute, DeleteAttribute(2.0), Create} on that one object, statement-"
+             "level crash points of the last operation, plus 'acknowledged => file changed'",
+        generated_sequences=rep.counters.get('sequences', 0),
         points_total=stmt_points + sys_points, points_covered=total,
         statement_level_points=stmt_points, syscall_level_points=sys_points,
         syscall_counts=counts, workload_operations=len(labels),
@@ -610,7 +711,7 @@ def replay(doc):
             doc['op'], 'NOT' if bad else 'present')
     labels = [r[0] for r in res]
     if doc.get('level') == 'statement':
-        tmp, pts = statement_level(None, states, labels)
+        tmp, pts = statement_level(None, states, labels, only_last=bool(doc.get('only_last')))
         try:
             p = pts[doc['point']]
             bad = check_survivor(p['file'], p['acked'], states, labels)
